@@ -10,9 +10,11 @@
 #include <sys/wait.h>
 #include <unistd.h>
 
-typedef struct shared { volatile uint64_t cur, done, evals; } shared;
+typedef struct shared { volatile uint64_t cur, done, evals, note; } shared;
 static shared *SH;
 uint64_t fr_current_idx;
+uint64_t fr_last_note;
+void fr_note(uint64_t v) { if (SH) SH->note = v; }
 static const fr_cfg *FC;
 static void cexw(FILE *f) { FC->describe(fr_current_idx, f); }
 
@@ -94,7 +96,10 @@ void fr_run(const fr_cfg *c, uint64_t lo, uint64_t hi, fr_stats *st) {
                 if (fds[k].fd < 0 || !(fds[k].revents & (POLLIN | POLLHUP | POLLERR))) continue;
                 char tmp[8192]; ssize_t r = read(fds[k].fd, tmp, sizeof tmp);
                 if (r <= 0) { close(fds[k].fd); fds[k].fd = -1; open_fds--; continue; }
-                if (k == 0) { size_t room = sizeof err - 1 - ne; size_t cp = (size_t)r < room ? (size_t)r : room; memcpy(err + ne, tmp, cp); ne += cp; }
+                if (k == 0) {      /* keep the tail: the sanitizer report comes last */
+                    if (ne + (size_t)r > sizeof err - 1) { size_t keep = (sizeof err) / 2; if (ne > keep) { memmove(err, err + ne - keep, keep); ne = keep; } }
+                    size_t room = sizeof err - 1 - ne; size_t cp = (size_t)r < room ? (size_t)r : room; memcpy(err + ne, tmp, cp); ne += cp;
+                }
                 else { size_t room = sizeof vio - 1 - nv; size_t cp = (size_t)r < room ? (size_t)r : room; memcpy(vio + nv, tmp, cp); nv += cp; }
             }
         }
@@ -111,7 +116,7 @@ void fr_run(const fr_cfg *c, uint64_t lo, uint64_t hi, fr_stats *st) {
         if (WIFEXITED(status) && WEXITSTATUS(status) == 0) { st->executed += hi - start; start = hi; break; }
         if (WIFEXITED(status) && WEXITSTATUS(status) == 7) { st->executed += SH->done - start; st->cap = "deadline"; break; }
         if (WIFEXITED(status) && WEXITSTATUS(status) == 3) { fprintf(stderr, "%s", err); vf_harness_error("child reported a harness error at execution %llu", (unsigned long long)SH->cur); }
-        uint64_t idx = SH->cur;
+        uint64_t idx = SH->cur; fr_last_note = SH->note;
         char sig[220], detail[400]; classify(err, status, sig, sizeof sig, detail, sizeof detail);
         fr_current_idx = idx; vf_cex_writer = cexw;
         vf_violation(sig, "execution %llu: %s", (unsigned long long)idx, detail[0] ? detail : "child process died");
